@@ -68,7 +68,7 @@ def cases(ctx):
         for r in runs:
             # a run over a region where the function has no answer: every output of its rows is NaN (an empty cell in a csv table)
             r["nan_run"] = rng.random() < 0.15
-        yield {"runs": runs, "no_args": no_args, "engine": rng.choice(["pickle", "pickle", "csv"]), "kind": rng.choice(["float", "multi:s,s", "int", "str"]),
+        yield {"runs": runs, "no_args": no_args, "engine": rng.choice(["pickle", "pickle", "csv"]), "kind": rng.choice(["float", "multi:s,s", "int", "str", "frac", "frac"]),
                "constants": consts, "mem_only": rng.random() < 0.1, "seeded_table": rng.random() < 0.15, "mixed_choices": rng.random() < 0.2,
                "default_kind": rng.choice(["lists", "mixed"]), "x_dates": rng.random() < 0.3,
                # table names whose extension asks pandas for compression
@@ -257,7 +257,7 @@ def run_case(ctx, case):
             rck = {"constants": dict(run["run_constants"])}
             constants.update(run["run_constants"])          # what this run's rows were computed with, and must record
             ctx.count("runs_naming_a_constant_at_the_call")
-        nan_run = bool(run.get("nan_run")) and kind in ("float", "multi:s,s")
+        nan_run = bool(run.get("nan_run")) and kind in ("float", "multi:s,s", "frac")
         probe.write_ctl(ctl, **({"nan_results": True} if nan_run else {}))
         if nan_run:
             ctx.count("runs_whose_outputs_are_all_nan")
